@@ -154,6 +154,12 @@ func (jr *jpegReader) nextMarker() bool {
 			continue
 		}
 
+		if jr.buf[1] == byte(markerFirstByte) {
+			// fill byte: a marker may be preceded by any number of 0xFF bytes (ITU-T T.81 B.1.1.2)
+			jr.err = jr.discard(1)
+			continue
+		}
+
 		if isSOIMarker(jr.buf) {
 			jr.pos++
 			jr.err = jr.discard(2)
